@@ -304,7 +304,7 @@ def stored_rates(rnd, n, curs=('EUR', 'USD', 'JPY', 'KWD')):
 def algebra_cases(ctx, rnd):
     quick = ctx.tier == 'quick'
     rates = stored_rates(rnd, 60 if quick else 400)
-    cs = [dict(op='rate_invert', r=r) for r in rates]
+    cs = [dict(op='rate_invert', r=r) for r in rates] + [dict(op='rate_invert', r=r, via='inv') for r in rates]
     pairs = list(itertools.product(rates[:40 if quick else 120], repeat=2))
     rnd.shuffle(pairs)
     for r1, r2 in pairs[:1500 if quick else 12000]:
@@ -371,6 +371,10 @@ def rate_eq_cases(ctx, rnd):
                     cs.append(dict(op='rate_eq', a=a, b=b))
                     cs.append(dict(op='rate_eq', a=a, b=b, via='inv2'))
             cs.append(dict(op='rate_eq', a=a, b=dict(uc=tc, tc=uc, m=V('int', m), t=V('dec', t))))
+            # the same number between other currencies is another rate
+            for (u2, t2) in ((uc, 'USD' if tc != 'USD' else 'HKD'), ('HKD' if uc != 'HKD' else 'USD', tc)):
+                if u2 != t2:
+                    cs.append(dict(op='rate_eq', a=a, b=dict(uc=u2, tc=t2, m=V('int', m), t=V('dec', t))))
             cs.append(dict(op='rate_eq', a=a, b=dict(uc=uc, tc=tc, m=V('int', m), t=V('dec', t + F(1, 1000)))))
     return cs
 
